@@ -76,6 +76,7 @@ func ruleC07(c *Ctx) {
 		nIter := 0
 		certStores := map[string]bool{}
 		traversalAlwaysRuns(c, "C07-R3", da, "EncryptedAssertion")
+		freshTargetsInHandlers(c, "C07-R3", da)
 		for _, t := range da.Terms {
 			for _, e := range t.St.events {
 				if e.Kind == EvIterEnter {
@@ -768,4 +769,37 @@ func traversalAlwaysRuns(c *Ctx, rule string, res *Result, tag string) {
 	}
 	c.count(rule+"/success-paths", n)
 	c.floor(rule+"/success-paths", 2)
+}
+
+// freshTargetsInHandlers: inside a traversal handler every xml.Unmarshal target is allocated by that very invocation.
+// encoding/xml only overwrites what the input mentions; a target kept in the enclosing scope (a struct field, a captured
+// variable) hands the previous element's EncryptedKey / DigestMethod / KeyInfo to an element that lacks them.
+func freshTargetsInHandlers(c *Ctx, rule string, res *Result) {
+	fname := shortFn(res.Root)
+	n := 0
+	for _, t := range res.Terms {
+		for _, e := range t.St.events {
+			if e.Kind != EvCall || e.Callee != "encoding/xml.Unmarshal" || len(e.Iters) == 0 {
+				continue
+			}
+			n++
+			obj := stripIface(e.Args[1])
+			fresh := false
+			if a, ok := obj.(*AllocV); ok {
+				for _, it := range e.Iters {
+					if strings.HasSuffix(it, "/iter") && strings.HasPrefix(a.Site, strings.TrimSuffix(it, "/iter")+"/") {
+						fresh = true
+					}
+				}
+			}
+			if fresh {
+				c.ok(rule, fname, "decode target inside the handler is fresh per element", c.P.InstrPos(e.Instr), "allocated inside the handler invocation")
+			} else {
+				c.bad(rule, fname, "decode target inside the handler is fresh per element", c.P.InstrPos(e.Instr),
+					"the object decoded into ("+ap(obj)+") outlives one handler invocation: encoding/xml merges the next element into it, so fields the next element lacks keep the previous element's values")
+			}
+		}
+	}
+	c.count(rule+"/handler-decodes", n)
+	c.floor(rule+"/handler-decodes", 1)
 }
